@@ -115,7 +115,7 @@ impl ValCheck for Ciphertext {
         let plain_modulus = parms.plain_modulus();
         if context_data.is_bfv() || context_data.is_ckks() {
             if correction_factor != 1 {return false;}
-        } else if context_data.is_bgv() && (correction_factor == 0 || correction_factor > plain_modulus.value()) {return false;}
+        } else if context_data.is_bgv() && (correction_factor == 0 || correction_factor >= plain_modulus.value()) {return false;}
         
         true
     }
